@@ -62,6 +62,7 @@ type WorkerResult struct {
 	HonestRuns int               `json:"honest_runs"`
 	FaultRuns  int               `json:"fault_runs"`
 	Sigs       []uint64          `json:"sigs"`
+	SigsCapped bool              `json:"sigs_capped"`
 	Faults     map[string]int    `json:"faults"`
 	Byz        map[string]int    `json:"byz"`
 	Probes     map[string]int    `json:"probes"`
@@ -100,6 +101,8 @@ func runOnce(e Engine, t *Tape, prop, tier string, keep bool) (v *Violation, inf
 }
 
 // Worker runs indices from, from+step, … < total until the deadline.
+const sigCapPerWorker = 400000
+
 func Worker(prop, engine, tier string, verifSeed uint64, from, step, total int, deadline time.Time) *WorkerResult {
 	start := time.Now()
 	res := &WorkerResult{Engine: engine, Faults: map[string]int{}, Byz: map[string]int{}, Probes: map[string]int{}, Known: map[string]int{}, KnownRep: map[string]string{}}
@@ -136,7 +139,13 @@ func Worker(prop, engine, tier string, verifSeed uint64, from, step, total int, 
 		res.Events += info.Events
 		res.SimNs += info.SimNs
 		if info.NonTrivial {
-			sigs[info.SigDigest()] = true
+			// the signature set is a coverage measure, not an oracle: cap it so that very long
+			// thorough batches do not hold tens of millions of entries (reported as a lower bound)
+			if len(sigs) < sigCapPerWorker {
+				sigs[info.SigDigest()] = true
+			} else {
+				res.SigsCapped = true
+			}
 		}
 		if keep {
 			tr := info.Trace
@@ -292,6 +301,7 @@ func Check(o CheckOptions) int {
 	findings := LoadFindings()
 	tot := &WorkerResult{Faults: map[string]int{}, Byz: map[string]int{}, Probes: map[string]int{}, Known: map[string]int{}, KnownRep: map[string]string{}}
 	sigs := map[string]map[uint64]bool{}
+	sigsCapped := false
 	perEngine := map[string]any{}
 	var real, stubs, rules []string
 	deadline := start.Add(o.Budget)
@@ -369,6 +379,7 @@ func Check(o CheckOptions) int {
 			er.Events += r.Events
 			er.SimNs += r.SimNs
 			er.CutShort = er.CutShort || r.CutShort
+			sigsCapped = sigsCapped || r.SigsCapped
 			addInto(er.Faults, r.Faults)
 			addInto(er.Byz, r.Byz)
 			addInto(er.Probes, r.Probes)
@@ -464,6 +475,7 @@ func Check(o CheckOptions) int {
 	cov := map[string]any{
 		"evaluations":                tot.Runs,
 		"distinct_nontrivial":        distinct,
+		"distinct_is_lower_bound":    sigsCapped,
 		"rule":                       strings.Join(rules, " || "),
 		"samples":                    samples,
 		"exhaustive":                 false,
